@@ -109,8 +109,9 @@ class InteractiveParser:
         # We don't want to call callbacks here since those might have arbitrary side effects
         # and are unnecessarily slow.
         conf_no_callbacks.callbacks = {}
+        is_terminal = self.parser_state.parse_conf.parse_table.is_terminal
         for t in self.choices():
-            if t.isupper(): # is terminal?
+            if is_terminal(t):
                 new_cursor = self.copy(deepcopy_values=False)
                 new_cursor.parser_state.parse_conf = conf_no_callbacks
                 try:
